@@ -8,7 +8,7 @@ Open Scope Z_scope.
    6 no reply, session still answers | 7 no such session | 8 session gone after close | 9 sweep done
    1x LoginResp{Error} + close (x = error text class) | 20 closed silently (unknown run id / pool full)
    22/23 NewVisitorConnResp{Error} + close | 24 closed silently (first message of another type)
-   3x StartWorkConn{Error} + close | 4x Pong{Error} | 51/52/53 NewProxyResp{Error} *)
+   3x StartWorkConn{Error} + close (39: refused by the plugin chain) | 4x Pong{Error} | 51/52/53 NewProxyResp{Error} *)
 Definition c04_verr_code (e : au_verr) : Z :=
   match e with
   | AuErrTokenLogin => 1 | AuErrTokenPing => 2 | AuErrTokenWork => 3
@@ -33,6 +33,7 @@ Definition c04_out_code (o : au_out) : Z :=
   | AuORefused AuRVisitorRefused => 23
   | AuORefused AuRFirstType => 24
   | AuORefused (AuRWorkAuth e) => 30 + c04_verr_code e
+  | AuORefused AuRWorkPlugin => 39
   | AuOPongErr e => 40 + c04_verr_code e
   | AuOProxyErrCfg => 51 | AuOProxyErrExists => 52 | AuOProxyErrRun => 53
   end.
@@ -62,7 +63,7 @@ Definition c4CFG m token scopes maxpool hb : au_cfg :=
   {| ac_method := m; ac_token := token; ac_scopes := scopes; ac_max_pool := maxpool; ac_hb_timeout := hb |}.
 
 Inductive case :=
-| CAuth (cfg : au_cfg) (hash_tab : list (Z * bytes)) (oidc_tab : list (bytes * option bytes)) (steps : list c04_step).
+| CAuth (cfg : au_cfg) (hash_tab : list (Z * bytes)) (oidc_tab : list (bytes * option (bytes * Z))) (steps : list c04_step).
 
 (* ---- oracles from tables ------------------------------------------------------------------------ *)
 
@@ -72,7 +73,9 @@ Fixpoint c04_hash_lookup (ts : Z) (t : list (Z * bytes)) : option bytes :=
   | (z, k) :: r => if z =? ts then Some k else c04_hash_lookup ts r
   end.
 
-Fixpoint c04_oidc_lookup (k : bytes) (t : list (bytes * option bytes)) : option (option bytes) :=
+(* OIDC oracle table: token -> None (never valid) | Some (subject, until): valid while now < until (the harness
+   mints short-lived tokens and knows at which step they stop being valid) *)
+Fixpoint c04_oidc_lookup (k : bytes) (t : list (bytes * option (bytes * Z))) : option (option (bytes * Z)) :=
   match t with
   | [] => None
   | (k', v) :: r => if bytes_eqb k' k then Some v else c04_oidc_lookup k r
@@ -86,28 +89,29 @@ Definition c04_H (cfg : au_cfg) (t : list (Z * bytes)) (token : bytes) (ts : Z) 
     match c04_hash_lookup ts t with Some k => k | None => [x00] end
   else [x01].
 
-Definition c04_oidc (t : list (bytes * option bytes)) (k : bytes) : option bytes :=
-  match c04_oidc_lookup k t with Some v => v | None => None end.
-
-Definition c04_event_keys (e : au_event) : option (bytes * Z) :=
-  match e with
-  | AuEFirst _ _ _ _ (AuFLogin l) => Some (al_key l, al_ts l)
-  | AuEFirst _ _ _ _ (AuFWorkConn _ k ts) => Some (k, ts)
-  | AuELater _ _ (AuLPing k ts) => Some (k, ts)
+Definition c04_oidc (t : list (bytes * option (bytes * Z))) (k : bytes) (now : Z) : option bytes :=
+  match c04_oidc_lookup k t with
+  | Some (Some (sub, until)) => if now <? until then Some sub else None
   | _ => None
   end.
 
-Definition c04_tables_complete (cfg : au_cfg) (ht : list (Z * bytes)) (ot : list (bytes * option bytes))
+Definition c04_event_keys (e : au_event) : list (bytes * Z) :=
+  match e with
+  | AuEFirst _ _ _ _ (AuFLogin l) => [(al_key l, al_ts l)]
+  | AuEFirst _ _ _ _ (AuFWorkConn _ k ts (AuPlugRewrite k' ts')) => [(k, ts); (k', ts')]
+  | AuEFirst _ _ _ _ (AuFWorkConn _ k ts _) => [(k, ts)]
+  | AuELater _ _ (AuLPing k ts) => [(k, ts)]
+  | _ => []
+  end.
+
+Definition c04_tables_complete (cfg : au_cfg) (ht : list (Z * bytes)) (ot : list (bytes * option (bytes * Z)))
   (steps : list c04_step) : bool :=
   forallb (fun st =>
-    match c04_event_keys (cs_event st) with
-    | None => true
-    | Some (k, ts) =>
+    forallb (fun kt : bytes * Z =>
         match ac_method cfg with
-        | AuToken => match c04_hash_lookup ts ht with Some _ => true | None => false end
-        | AuOidc => match c04_oidc_lookup k ot with Some _ => true | None => false end
-        end
-    end) steps.
+        | AuToken => match c04_hash_lookup (snd kt) ht with Some _ => true | None => false end
+        | AuOidc => match c04_oidc_lookup (fst kt) ot with Some _ => true | None => false end
+        end) (c04_event_keys (cs_event st))) steps.
 
 (* ---- comparison of the model state with a snapshot ------------------------------------------------ *)
 
@@ -147,7 +151,7 @@ Definition c04_subjects_match (cfg : au_cfg) (s : au_state) (sn : c04_snap) : bo
 
 (* full codes: 100*(step index+1) + reason; reasons: 1 reply class differs | 2 session table differs | 3 proxy table
    differs | 4 OIDC subject list differs | 5 run id in LoginResp differs *)
-Fixpoint c04_walk (cfg : au_cfg) (H : bytes -> Z -> bytes) (oi : bytes -> option bytes)
+Fixpoint c04_walk (cfg : au_cfg) (H : bytes -> Z -> bytes) (oi : bytes -> Z -> option bytes)
   (s : au_state) (i : Z) (steps : list c04_step) : Z :=
   match steps with
   | [] => 0
@@ -189,47 +193,52 @@ Definition c04_find_osess (rid : bytes) (sn : c04_snap) : option c04_osess :=
 
 (* did the message carry the configured credential (token method: the key of the token for that timestamp;
    OIDC: a token the verifier maps to a subject — for ping / work connection one that logged in)? *)
-Definition c04_cred_login (cfg : au_cfg) (H : bytes -> Z -> bytes) (oi : bytes -> option bytes) (k : bytes) (ts : Z) : bool :=
+Definition c04_cred_login (cfg : au_cfg) (H : bytes -> Z -> bytes) (oi : bytes -> Z -> option bytes) (now : Z) (k : bytes) (ts : Z) : bool :=
   match ac_method cfg with
   | AuToken => bytes_eqb k (H (ac_token cfg) ts)
-  | AuOidc => match oi k with Some _ => true | None => false end
+  | AuOidc => match oi k now with Some _ => true | None => false end
   end.
 
-Definition c04_cred_msg (cfg : au_cfg) (H : bytes -> Z -> bytes) (oi : bytes -> option bytes) (subjects : list bytes) (k : bytes) (ts : Z) : bool :=
+Definition c04_cred_msg (cfg : au_cfg) (H : bytes -> Z -> bytes) (oi : bytes -> Z -> option bytes) (subjects : list bytes) (now : Z) (k : bytes) (ts : Z) : bool :=
   match ac_method cfg with
   | AuToken => bytes_eqb k (H (ac_token cfg) ts)
-  | AuOidc => match oi k with Some sub => au_mem sub subjects | None => false end
+  | AuOidc => match oi k now with Some sub => au_mem sub subjects | None => false end
   end.
 
 (* one step of the observed trace satisfies C04, given the snapshot before it.  0 = fine. *)
-Definition c04_monitor_step (cfg : au_cfg) (H : bytes -> Z -> bytes) (oi : bytes -> option bytes) (before : c04_snap) (st : c04_step) : Z :=
+Definition c04_monitor_step (cfg : au_cfg) (H : bytes -> Z -> bytes) (oi : bytes -> Z -> option bytes) (before : c04_snap) (st : c04_step) : Z :=
   let after := cs_snap st in
   let code := cs_code st in
   (* M1: anything answered with a refusal leaves no trace in the server state *)
   if c04_refusal_code code && negb (c04_snap_eqb before after) then 1
   else match cs_event st with
-  | AuEFirst internal _ _ _ (AuFLogin l) =>
+  | AuEFirst internal _ now _ (AuFLogin l) =>
       (* M2: a session is created only for a login carrying the credential, or on the internal listener with the flag *)
-      if (code =? 1) && negb (c04_cred_login cfg H oi (al_key l) (al_ts l) || (internal && asp_always_pass (al_spec l)))
+      if (code =? 1) && negb (c04_cred_login cfg H oi now (al_key l) (al_ts l) || (internal && asp_always_pass (al_spec l)))
       then 2 else 0
-  | AuEFirst _ _ _ _ (AuFWorkConn rid k ts) =>
-      (* M3: a work connection is pooled only for a known run id and, with the scope on and a session
-         held to the configured verifier, only with the credential *)
+  | AuEFirst _ _ now _ (AuFWorkConn rid k0 ts0 plug) =>
+      (* M3: a work connection is pooled only for a known run id, only if the plugin chain let it through and,
+         with the scope on and a session held to the configured verifier, only if what the chain RETURNED carries
+         a credential that is valid now *)
       if code =? 2 then
         match c04_find_osess rid before with
         | None => 3
         | Some o =>
-            if au_has_scope AuScNewWorkConns (ac_scopes cfg) && negb (os_pass o) &&
-               negb (c04_cred_msg cfg H oi (sn_subjects before) k ts) then 4 else 0
+            match au_plug_apply plug k0 ts0 with
+            | None => 7
+            | Some (k, ts) =>
+                if au_has_scope AuScNewWorkConns (ac_scopes cfg) && negb (os_pass o) &&
+                   negb (c04_cred_msg cfg H oi (sn_subjects before) now k ts) then 4 else 0
+            end
         end
       else 0
   | AuEFirst _ _ _ _ (AuFOther _) => if code =? 24 then 0 else 5     (* M4: other first messages are cut off *)
-  | AuELater _ _ (AuLPing k ts) =>
+  | AuELater _ now (AuLPing k ts) =>
       (* M5: liveness refreshed (Pong without error) only with the credential when the scope is on and the
          session is held to the configured verifier (cs_rid names the session for later messages);
          a Pong with an error that refreshes anyway is caught by M1 *)
       if (code =? 4) && au_has_scope AuScHeartBeats (ac_scopes cfg) &&
-         negb (c04_cred_msg cfg H oi (sn_subjects before) k ts) then
+         negb (c04_cred_msg cfg H oi (sn_subjects before) now k ts) then
         match c04_find_osess (cs_rid st) before with
         | Some o => if os_pass o then 0 else 6
         | None => 0
@@ -238,7 +247,7 @@ Definition c04_monitor_step (cfg : au_cfg) (H : bytes -> Z -> bytes) (oi : bytes
   | _ => 0
   end.
 
-Fixpoint c04_monitor (cfg : au_cfg) (H : bytes -> Z -> bytes) (oi : bytes -> option bytes) (before : c04_snap) (i : Z) (steps : list c04_step) : Z :=
+Fixpoint c04_monitor (cfg : au_cfg) (H : bytes -> Z -> bytes) (oi : bytes -> Z -> option bytes) (before : c04_snap) (i : Z) (steps : list c04_step) : Z :=
   match steps with
   | [] => 0
   | st :: r =>
@@ -253,7 +262,7 @@ Definition C04_holds (c : case) : bool :=
   end.
 
 (* 0 = model and implementation agree and the monitors hold; 99 = oracle tables incomplete (harness bug);
-   otherwise 100*(step+1) + reason: 1..5 correspondence (see c04_walk), 11..16 monitor M1..M6 *)
+   otherwise 100*(step+1) + reason: 1..5 correspondence (see c04_walk), 11..17 monitor codes 1..7 *)
 Definition check_case_full (c : case) : Z :=
   match c with
   | CAuth cfg ht ot steps =>
@@ -284,3 +293,28 @@ Definition c04_count_network_claim (l : list case) : Z :=
      acc + count_if (fun st => match cs_event st with
                                | AuEFirst false _ _ _ (AuFLogin lg) => asp_always_pass (al_spec lg) && negb (cs_code st =? 1)
                                | _ => false end) steps end) l 0.
+
+(* a token that WAS valid (table entry with a subject) presented at or after the step it stopped being valid,
+   and refused (login 14, work connection 35, ping 45) *)
+Definition c04_count_expired_refused (l : list case) : Z :=
+  fold_left (fun acc c => match c with CAuth cfg _ ot steps =>
+     match ac_method cfg with
+     | AuToken => acc
+     | AuOidc =>
+       acc + count_if (fun st =>
+         existsb (fun kt : bytes * Z =>
+            match c04_oidc_lookup (fst kt) ot, cs_event st with
+            | Some (Some (_, until)), AuEFirst _ _ now _ _ | Some (Some (_, until)), AuELater _ now _ =>
+                (until <=? now) && ((cs_code st =? 14) || (cs_code st =? 35) || (cs_code st =? 45))
+            | _, _ => false
+            end) (c04_event_keys (cs_event st))) steps
+     end end) l 0.
+
+Definition c04_is_rewrite (e : au_event) : bool :=
+  match e with AuEFirst _ _ _ _ (AuFWorkConn _ _ _ (AuPlugRewrite _ _)) => true | _ => false end.
+Definition c04_count_rewrite_refused (l : list case) : Z :=
+  fold_left (fun acc c => match c with CAuth _ _ _ steps =>
+     acc + count_if (fun st => c04_is_rewrite (cs_event st) && (30 <=? cs_code st) && (cs_code st <=? 38)) steps end) l 0.
+Definition c04_count_rewrite_pooled (l : list case) : Z :=
+  fold_left (fun acc c => match c with CAuth _ _ _ steps =>
+     acc + count_if (fun st => c04_is_rewrite (cs_event st) && (cs_code st =? 2)) steps end) l 0.
